@@ -389,6 +389,9 @@ impl Property for C16 {
     fn check(case: &FileCase, env: &mut Env) -> Verdict {
         check_c16_case(case, env)
     }
+    fn from_fuzz_bytes(d: &[u8]) -> Option<FileCase> {
+        Some(crate::fuzzdec::decode_file_case(d))
+    }
     fn floors() -> Vec<(&'static str, f64)> {
         vec![
             ("magic-ok-but-rejected-later", 0.1),
